@@ -308,6 +308,14 @@ def apply_model(sym, n, f, vals, mut_idx, st):
         sign = 1 if raw.endswith("add") else -1
         return V(("checked", lin_norm([(vals[0], 1), (vals[1], sign)])))
 
+    # ---- the last piece of a split, taken from either end ------------------------------------------------------------------------
+    if p == "std::iter::Iterator::next" and len(vals) == 1 and vals[0][0] == "call" and vals[0][1] == "core::str::rsplit" and len(vals[0][2]) == 2:
+        return V(("call", "std::iter::Iterator::last", (("call", "core::str::split", vals[0][2]),)))
+    if p == "std::iter::DoubleEndedIterator::next_back" and len(vals) == 1 and vals[0][0] == "call" and vals[0][1] == "core::str::split" and len(vals[0][2]) == 2:
+        return V(("call", "std::iter::Iterator::last", (vals[0],)))
+    if p == "std::iter::Iterator::last" and len(vals) == 1 and vals[0][0] == "call" and vals[0][1] == "core::str::rsplit" and len(vals[0][2]) == 2:
+        return V(("call", "std::iter::Iterator::next", (("call", "core::str::split", vals[0][2]),)))
+
     # ---- str::splitn(2, pat) as the two halves of split_once(pat) ---------------------------------------------------------
     if p == "std::iter::Iterator::next" and len(vals) == 1 and vals[0][0] == "place" and n.get("args"):
         pl = sym.place_of(n["args"][0], st)
